@@ -5,6 +5,7 @@ the extracted model (RangeExpr.v: elen, elems, getitem, expr_tokens + parse_toke
 coq/props/C13.v proves equal to the specification for all expressions and all integer lists."""
 import itertools
 import random
+import re
 import sys
 from pathlib import Path
 
@@ -92,6 +93,27 @@ def describe(r: IntRangeExpr):
 
 # ---------------------------------------------------------------- expressions too long to enumerate
 LIMIT = 2 ** 63          # a Python container holds fewer values than this: len() of anything longer cannot exist
+
+
+class int_limit:
+    """the process-wide limit on the digits int() / str() handle, for the duration of a block"""
+    def __init__(self, lim):
+        self.lim = lim
+
+    def __enter__(self):
+        self.old = sys.get_int_max_str_digits()
+        if self.lim is not None:
+            sys.set_int_max_str_digits(self.lim)
+
+    def __exit__(self, *a):
+        sys.set_int_max_str_digits(self.old)
+
+
+def bits(x):
+    """integers spelled in binary (nothing that prints the structure later meets the decimal limit)"""
+    if isinstance(x, bool) or not isinstance(x, int):
+        return [bits(v) for v in x] if isinstance(x, list) else x
+    return zb(x)
 
 
 def zb(i: int) -> str:
@@ -278,8 +300,13 @@ class C13(core.PropBase):
 
     # ------------------------------------------------------------ cases
     def corpus_cases(self):
+        A, A5 = "1" + "0" * 4300, "1" + "0" * 4299 + "5"
+        limited = [(0, "9" * 4301), (0, "-" + "9" * 5000), (0, f"{A}-{A5}"), (0, f"{A}-{A5}:2,7"), (0, f"-{A5}--{A}"), (10000, "9" * 4301 + ",5"), (10000, "9" * 10001),
+                   (640, "9" * 641), (640, "9" * 640 + ",5"), (640, "1-" + "9" * 641), (4300, "9" * 4301), (0, "9" * 4300), (640, "5-9:2")]
         return ([{"k": "l", "vs": vs} for vs in CORPUS_LISTS] + [{"k": "s", "s": s} for s in CORPUS_STRS]
-                + [{"k": "b", "s": s} for s in CORPUS_BIG])
+                + [{"k": "b", "s": s} for s in CORPUS_BIG]
+                # the process changed how many digits int() / str() handle AFTER the package was imported
+                + [{"k": "b", "s": s, "limit": lim} for lim, s in limited])
 
     def cases(self, tier, seed):
         rng = random.Random(seed * 104729 + 13)
@@ -358,12 +385,19 @@ class C13(core.PropBase):
 
     # ------------------------------------------------------------ the two sides
     def impl(self, case):
+        if "limit" in case:
+            with int_limit(case["limit"]):
+                return bits(self._impl(case))
+        return self._impl(case)
+
+    def _impl(self, case):
         try:
             r = IntRangeExpr.from_str(case["s"]) if case["k"] in "sb" else IntRangeExpr.from_list(case["vs"])
         except BaseException as e:  # noqa: BLE001
             return ["raise", exn_family(e)]
         if case["k"] == "b":
-            idx = big_indices(case["s"])
+            with int_limit(0 if "limit" in case else None):
+                idx = big_indices(case["s"])
             text = str(r)
             try:
                 toks = lex_tokens(text)
@@ -378,12 +412,23 @@ class C13(core.PropBase):
 
     def requests(self, case):
         if case["k"] == "b":
-            return [["big_str", False, False, core.cps(case["s"]), [zb(i) for i in big_indices(case["s"])]]]
+            with int_limit(0 if "limit" in case else None):
+                return [["big_str", False, False, core.cps(case["s"]), [zb(i) for i in big_indices(case["s"])]]]
         if case["k"] == "s":
             return [["from_str", False, False, core.cps(case["s"]), "auto"]]
         return [["from_list", False, False, [int(v) for v in case["vs"]], "auto"]]
 
     def model_obs(self, case, replies):
+        if "limit" in case:
+            lim = case["limit"]
+            longest = max((len(m) for m in re.findall(r"[0-9]+", case["s"])), default=0)
+            if lim and longest > lim:
+                return ["raise", "ExpressionError"]      # int() cannot read it now: refused, and refused as ExpressionError
+            with int_limit(0):
+                return bits(self._model_obs({k: v for k, v in case.items() if k != "limit"}, replies))
+        return self._model_obs(case, replies)
+
+    def _model_obs(self, case, replies):
         if case["k"] == "b":
             if not replies:
                 return ["raise", "ExpressionError"]
